@@ -454,7 +454,11 @@ def _explore_program(ctx, res, ex, family, pname, progs, target, full, budget, s
         total += 1
         res.count("preempt:%s:%s:%d-switch" % (family, pname, len(plan) - len(progs)))
         res.case(("preempt", family, pname, plan), nontrivial=all(k is None or k > 0 for _, k in plan))
+        before = stats.get("owner_value_replaced_in_block", 0)
         why = prob or judge(logs, stats)
+        if stats.get("owner_value_replaced_in_block", 0) > before and "preempt_owner_value_replaced_first" not in res.extra:
+            res.extra["preempt_owner_value_replaced_first"] = {"program": pname, "progs": progs, "plan": plan, "target": target,
+                                                               "owner_results": out.get("0")}
         if why and not found:
             found = True
             res.disagree("spec", {"preempt": dict(inp0, plan=plan, points=[n[t] for t in sorted(n)])},
